@@ -18,6 +18,9 @@ A "round" is one suspension of the stack: `c.rounds` counts the suspensions star
 ones (a record is appended when the continuation starts, i.e. at `m_stack_state.store(active)` on the resumed stack).
 -/
 import TbbVerif.Proofs.C20.Facts
+import TbbVerif.Proofs.C20.SleepN2
+import TbbVerif.Proofs.C20.Disp
+import TbbVerif.Model.C20Gen
 import TbbVerif.Generated.C20
 
 namespace TbbVerif.C20
@@ -230,6 +233,103 @@ example :
     let g := (sys (some 0) [[.reserve, .taskBegin, .suspend, .switch .user], [.resume, .resume], [.take, .waitCheck]]).run
                 [0, 0, 0, 0, 0, 1, 1, 1, 2, 2]
     (g.ths.map (·.misuse), g.c.done.length, g.c.wc, g.c.waitBad) = ([false, true, false], 1, 1, false) := by
+  decide
+
+/-! ## The dispatch context of the suspending thread, and resume versus sleep
+
+The next theorems are about the two places outside the hand-shake word where a suspended task can be "forgotten":
+the dispatch loop the suspending thread continues in (`Model/C20Disp.lean`) and the sleep of that thread when it is
+the only one in its arena (`Model/C20Sleep.lean`).  Both models are configured by facts that the check regenerates
+from the source on every run (`Generated/C20.lean`, assembled in `Model/C20Gen.lean`); `generated_*_facts` pin them to
+what the proofs need, so a source change that alters one of them breaks this file. -/
+
+/-- The regenerated facts about the dispatch context are the ones the model is proved for: the dispatcher a suspending
+thread moves onto starts with `no_isolation` whatever the isolation of the suspender (observed on the instrumented
+runtime), and the task sources filter as `isolation == no_isolation || isolation == task's` (translated from
+arena_slot.cpp / mailbox.h / task_dispatcher.h / arena.h). -/
+theorem generated_dispatch_facts : Disp.Good genDispCfg := by
+  refine ⟨fun _ => rfl, ?_, ?_, ?_, ?_, ?_⟩
+  · intro l t; by_cases h1 : l = 0 <;> by_cases h2 : l = t <;> simp [genDispCfg, Generated.C20.omitLocal, h1, h2]
+  · intro l t; by_cases h1 : l = 0 <;> by_cases h2 : l = t <;> simp [genDispCfg, Generated.C20.stealOk, h1, h2]
+  · intro l t; by_cases h1 : l = 0 <;> by_cases h2 : t = l <;> simp [genDispCfg, Generated.C20.mailSkip, h1, h2]
+  · intro l; by_cases h1 : l = 0 <;> simp [genDispCfg, Generated.C20.fifoOk, h1]
+  · intro l; by_cases h1 : l = 0 <;> simp [genDispCfg, Generated.C20.critSpecific, h1]
+
+/-- **The thread that suspended keeps executing other work** (dispatch-context part).  Take any state `s0` of a thread
+(any isolation of its current dispatcher, any nesting of dispatch loops, any suspended stacks, any coroutines in the
+co-cache that were left there by the code itself) and any sequence `ops` of isolate / nested wait / task execution /
+loop exit / suspend / resume-task operations; when the thread then calls `tbb::task::suspend`, it continues on a
+coroutine dispatcher whose dispatch loop runs with isolation `l = no_isolation`: the loop accepts EVERY task, whatever
+its isolation tag — from the local pool, by stealing, from the mailbox — and looks at the enqueued-task stream and at
+any critical task; in particular the isolation of the region that called `suspend` plays no role. -/
+theorem suspended_thread_takes_any_task (s0 : Disp.St) (h0 : Disp.WF s0) (ops : List Disp.Op) :
+    let s := Disp.step genDispCfg (Disp.run genDispCfg s0 ops) .suspend
+    s.cur.co = true ∧ Disp.curLoopIso s = some 0 ∧ Disp.takesAll genDispCfg 0 := by
+  have g := generated_dispatch_facts
+  have hw := Disp.run_wf genDispCfg g ops s0 h0
+  have h := Disp.suspend_loop_iso genDispCfg g _ hw
+  exact ⟨h.1, h.2, Disp.takesAll_zero genDispCfg g⟩
+
+/-- The regenerated facts about the sleep path are the ones the model is proved for: the wake-up condition of
+`coroutine_waiter::pause` is `arena not empty || owner recalled`, `has_tasks()` looks at the resume (and critical)
+stream, `r1::resume` pushes the resume task and THEN calls `advertise_new_work<wakeup>`, the owner recall stores the
+flag and then notifies the monitor. -/
+theorem generated_sleep_facts : Sleep.Good genSleepCfg :=
+  ⟨by decide, by decide, by decide, by decide, by decide⟩
+
+/-- **A resume is not lost by the sleep of the arena's only thread** (the C02 monitor theorem for this predicate).
+For every initial value of `my_pool_state`, any number of concurrent resumers (`r1::resume` after a successful
+`try_notify_resume`: push into the resume stream, then `advertise_new_work<wakeup>` = `test_and_set` of the pool state
+and, if it was the one to set it, `notify` of the waiting-threads monitor) and owner recalls (`recall_owner` + `notify`),
+every program of the sleeping thread (any sequence of "take a resume task / my recall" and "back-off expired:
+`out_of_work()` — clear transaction with the `has_tasks` scan — then `sleep()`: `prepare_wait`, wake-up condition,
+`commit_wait`, semaphore"), and EVERY interleaving `sched` of the atomic accesses: if a resume task is in the stream, or
+the owner has been recalled, and no notifier step is pending (every resumer / recaller has either not started or
+returned), then the thread is NOT blocked on its semaphore — it is running, or its V has already been posted. -/
+theorem resume_not_lost_by_sleep (poolSet : Bool) (kinds : List Sleep.NKind) (ops : List Sleep.SOp) (sched : List Tid) :
+    let s := (Sleep.sys genSleepCfg poolSet kinds ops).run sched
+    Sleep.quiet s = true → (0 < s.stream ∨ s.recalled = true) → Sleep.blocked s = false := by
+  intro s hq hw
+  exact Sleep.not_blocked_of_inv s (Sleep.inv_reachable genSleepCfg generated_sleep_facts poolSet kinds ops sched) hq hw
+
+/-! ### non-vacuity of the two models -/
+
+/-- a task suspends inside `this_task_arena::isolate` (tag 7) while the default dispatcher is in a nested wait: the
+thread continues in a loop without isolation; later the coroutine is parked in the co-cache and reused -/
+example :
+    let s0 : Disp.St := { cur := { iso := 0, loops := [] } }
+    let s1 := Disp.run genDispCfg s0 [.enter, .exec 0, .setIso 7, .suspend]
+    let s2 := Disp.run genDispCfg s1 [.exec 7, .exec 0, .resumeTo 0, .setIso 9, .suspend]
+    (s1.cur.co, Disp.curLoopIso s1, s1.susp.map (·.iso), Disp.curLoopIso s2, s2.cache.length) =
+      (true, some 0, [7], some 0, 0) := by
+  decide
+
+/-- the sleeper clears the pool state, parks; a resumer pushes, sets the state, notifies: the sleeper is woken and
+takes the task -/
+example :
+    let s := (Sleep.sys genSleepCfg true [.resume] [.sleep 5, .take]).run
+              [0, 0, 0, 0, 0, 0, 0, 0, 0, 1, 1, 1, 1, 1, 1, 0, 0]
+    (s.sl, s.stream, s.epoch, Sleep.quiet s, Sleep.blocked s) = (.idle, 0, 1, true, false) := by
+  decide
+
+/-- the resume lands between the `has_tasks` scan and the sleep: the clear transaction is interrupted, no notify is
+sent, and it is the wake-up condition (`arena not empty`) that keeps the thread awake -/
+example :
+    let s := (Sleep.sys genSleepCfg true [.resume] [.sleep 5]).run [0, 0, 0, 0, 1, 1, 1, 0, 0, 0, 0, 0, 0, 0]
+    (s.sl, s.pool, s.stream, Sleep.quiet s, Sleep.blocked s) = (.idle, .set, 1, true, false) := by
+  decide
+
+/-- ... and the hypotheses of `resume_not_lost_by_sleep` are needed: with a wake-up condition that ignores the arena
+state, or one that ignores the recall flag, with a `has_tasks` that ignores the resume stream, or a `resume` that does
+not advertise, the model loses the resume (the thread is parked, the task is in the stream, nobody will notify) -/
+example :
+    let lost := fun (cfg : Sleep.Cfg) (p : Bool) (k : Sleep.NKind) (sch : List Tid) =>
+      let s := (Sleep.sys cfg p [k] [.sleep 5]).run sch
+      Sleep.blocked s && Sleep.quiet s && (decide (0 < s.stream) || s.recalled)
+    (lost { Sleep.asCoded with pred := fun _ r => r } true .resume [0, 0, 0, 0, 1, 1, 1, 0, 0, 0, 0, 0],
+     lost { Sleep.asCoded with pred := fun n _ => n } false .recall [0, 0, 1, 1, 0, 0, 0, 0, 0],
+     lost { Sleep.asCoded with scanSeesResume := false } true .resume [1, 1, 0, 0, 0, 0, 0, 0, 0, 0, 0, 0],
+     lost { Sleep.asCoded with advertises := false } false .resume [0, 0, 0, 0, 0, 0, 0, 1, 1]) = (true, true, true, true) := by
   decide
 
 end TbbVerif.C20
